@@ -23,3 +23,18 @@ package iteru
 //@     invariant (min == nil) == (idx_ == 0)
 //@     invariant min != nil ==> exists(0, idx_, func(j int) bool { return *min == seqat(it, j) })
 //@     invariant min != nil ==> forall(0, idx_, func(j int) bool { return cmp(*min, seqat(it, j)) <= 0 })
+
+// Concat of two sequences (the arity the storage engine uses): the first, then the second.
+//@ define catOf(out, seqs, k, n) := len(out) == ite(k >= 1, seqlen(seqs[0]), 0) + ite(k >= 2, seqlen(seqs[1]), 0) + n &&
+//@        forall(0, len(out), func(jj_ int) bool { return out[jj_] == ite(jj_ < seqlen(seqs[0]), seqat(seqs[0], jj_), seqat(seqs[1], jj_-seqlen(seqs[0]))) })
+//@ func Concat
+//@   property C18
+//@   requires len(seqs) == 2
+//@   modifies nothing
+//@   ensures seqlen(result) == seqlen(seqs[0]) + seqlen(seqs[1])
+//@   ensures forall(0, seqlen(seqs[0]), func(j int) bool { return seqat(result, j) == seqat(seqs[0], j) })
+//@   ensures forall(0, seqlen(seqs[1]), func(j int) bool { return seqat(result, seqlen(seqs[0])+j) == seqat(seqs[1], j) })
+//@   loop 0:
+//@     invariant catOf(out_, seqs, idx_, 0)
+//@   loop 1:
+//@     invariant catOf(out_, seqs, idx0_, idx_)
